@@ -107,27 +107,32 @@ CLAIMED.update({
         text=("Signature padding exactness on the real verifier: the padding the library produces verifies, NO other 64-byte block verifies "
               "for a digest (so any change to the decrypted signature block is detected), a different digest never verifies; same for the "
               "256-byte strong padding (thorough). The weak-signature digest is fed exactly the signed byte range with the signature window "
-              "zeroed (MD5 compression function replaced by a recording tap). Sector-checksum enforcement on single-unit files runs under C01 "
-              "(thorough)."),
-        design_ref="DESIGN.md section 4, C10",
+              "zeroed (MD5 compression function replaced by a recording tap); the version-4 header digest is fed exactly the 192 header bytes "
+              "at the archive's own offset (archive at offset 0 and behind a 512-byte stub). A single-byte fault in the data or checksum of a "
+              "checksummed single-unit file is detected; (attributes) write->parse keeps every CRC32/MD5/time/patch value."),
+        design_ref="DESIGN.md sections 0.7, 0.8 and 4, C10",
         note=("Outside: RSA (modpow on 512/2048-bit integers), digest values (second pre-images), sector checksums of compressed multi-sector "
-              "files (the reader skips them: seen by reading, needs a real codec to reach), V4 header/table digests and (attributes) CRC32/MD5 "
-              "verification (need Archive::open / the FFI verify calls)."),
+              "files (the reader skips them: seen by reading, needs a real codec to reach), the V4 table digests (only the header digest's input range is decided) and (attributes) CRC32/MD5 "
+              "verification against file contents (need Archive::open / the FFI verify calls)."),
     ),
     "C17": dict(
         text=("DBC writer/reader kernels: per scalar field type, write_value(parse_field_value(b)) == b and both move FieldType::size() bytes "
               "for all contents; the header DbcWriter emits for any schema of <= 3 fields (types and array sizes symbolic) satisfies the size law "
-              "and is accepted by Schema::validate of the same schema; header parsers (WDBC/WDB2/WDB5) and string-block lookups are total."),
-        design_ref="DESIGN.md section 4, C17",
+              "and is accepted by Schema::validate of the same schema; header parsers (WDBC/WDB2/WDB5) and string-block lookups are total; hashed "
+              "key lookup (map built by RecordSet::new) for every combination of 2..3 keys and binary-searched lookup from every key-ascending "
+              "permutation of 2..5 records return a record carrying the key and miss absent keys."),
+        design_ref="DESIGN.md sections 0.7 and 4, C17",
         note=("Trusted: RandomState fixed (HashMap with concrete keys only). Fixed defect KF-C17-array-field-count (dc3511e). Outside: lazy / mmap / "
-              "rayon access paths, string de-duplication over symbolic strings, key lookups through HashMap with symbolic keys, tables beyond "
-              "3 fields."),
+              "rayon access paths, string de-duplication / interning of write_records, the hashed map rebuilt by create_sorted_key_map (std's sort "
+              "does not finish in CBMC; its postcondition is assumed for the binary search), tables beyond 3 fields. HashMap is an "
+              "association-list model in the scratch copy."),
     ),
     "C19": dict(
         text=("Single-threaded C-API steps on the real extern functions: null handles are reported as ERROR_INVALID_HANDLE and nothing is "
-              "written through caller pointers (all arguments symbolic); thorough: from a fabricated open-file state, SFileSetFilePointer never "
-              "panics, keeps the cursor inside the file and returns it, SFileReadFile copies exactly min(to_read, remaining) bytes and writes "
-              "nothing beyond them (guard zone), stale and closed handles are errors."),
+              "written through caller pointers (all arguments symbolic); from a fabricated open-file state SFileReadFile copies exactly "
+              "min(to_read, remaining) bytes, writes nothing beyond them (guard zone) and advances the cursor by what it copied; thorough: "
+              "SFileSetFilePointer never panics, keeps the cursor inside the file and returns it, stale and closed handles are errors, "
+              "info / size / archive-name queries respect buffer_size."),
         design_ref="DESIGN.md section 4, C19",
         note=("Outside: threads and lock order (Kani has no scheduler), every function that opens/creates/adds/flushes/compacts an archive "
               "(file I/O), agreement of contents with the Rust API, find handles."),
